@@ -311,6 +311,9 @@ def with_case_watchdog(fn):
     try:
         return fn()
     except HangTimeout:
+        HANGS["assumed"] += 1
+        if HANGS["assumed"] > 3:
+            raise StopSearch()
         raise Violation("hang", "the case did not finish within %.0f s of wall-clock time (outer guard; calls of this kind normally take microseconds)" % CASE_WATCHDOG_S)
     finally:
         signal.setitimer(signal.ITIMER_REAL, 0)
@@ -435,17 +438,35 @@ def run_shrink(prop, tier, shard_seed, examples, bucket, budget_s):
 Ctx.shrink_deadline = None
 
 
-def pool_map(fn, jobs, timeout_s=3600, procs=None):
-    """multiprocessing map for the enumerated parts; a worker that never returns becomes a violation, not a blocked check"""
+def _chunk_entry(args):
+    fn, arg, seconds = args
+    old = signal.signal(signal.SIGALRM, _alarm)
+    signal.setitimer(signal.ITIMER_REAL, seconds)
+    try:
+        return fn(arg)
+    except HangTimeout:
+        return ("__hang__", repr(arg)[:120])
+    finally:
+        signal.setitimer(signal.ITIMER_REAL, 0)
+        signal.signal(signal.SIGALRM, old)
+
+
+def pool_map(fn, jobs, timeout_s=None, procs=None):
+    """multiprocessing map for the enumerated parts; a chunk that never returns becomes a violation, not a blocked check"""
     import multiprocessing as mp
 
+    timeout_s = timeout_s or float(os.environ.get("VERIF_CHUNK_TIMEOUT_S", "1800"))
     pool = mp.get_context("fork").Pool(min(procs or 16, os.cpu_count() or 1))
     try:
-        return pool.map_async(fn, jobs, chunksize=1).get(timeout=timeout_s)
+        res = pool.map_async(_chunk_entry, [(fn, j, timeout_s) for j in jobs], chunksize=1).get(timeout=timeout_s * 2 + 60)
     except mp.TimeoutError:
-        raise Violation("hang-in-enumeration", "an enumeration worker did not return within %d s" % timeout_s)
+        raise Violation("hang-in-enumeration", "enumeration workers did not return within %d s" % (timeout_s * 2 + 60))
     finally:
         pool.terminate()
+    for r in res:
+        if isinstance(r, tuple) and len(r) == 2 and r[0] == "__hang__":
+            raise Violation("hang-in-enumeration", "the enumeration chunk %s did not finish within %d s (chunks normally take seconds)" % (r[1], timeout_s))
+    return res
 
 
 # --------------------------------------------------------------------------
